@@ -98,9 +98,149 @@ def run_scan(funcs, o, tier):
     return rec
 
 
+def _smt(query, solver):
+    import subprocess
+    cmd = ["z3", "-in", "-T:120"] if solver == "z3" else ["cvc5", "--lang", "smt2", "--produce-models", "--tlimit=120000"]
+    t0 = time.time()
+    p = subprocess.run(cmd, input=query, stdout=subprocess.PIPE, stderr=subprocess.PIPE, text=True)
+    out = p.stdout.strip()
+    first = out.split("\n")[0] if out else "error"
+    if "(error" in out and first not in ("sat", "unsat"):
+        first = "error"
+    return first, out, time.time() - t0
+
+
+def run_bounds(funcs, o, tier):
+    """kind="bounds": the bound transformations of a mixed-type numeric range query (closures handed
+    to BoundsRange::transform_inner / map_bound inside `parent`) are executed as bit-vector programs
+    (mirproto/bv.py); for every query-literal q and column value c (64-bit, symbolic) a column value
+    must satisfy the transformed bound in the order-preserving u64 space iff it satisfies the
+    original bound numerically - per side (lower / upper) and per kind (inclusive / exclusive)."""
+    import bv as BVX
+    spec = o["spec"]
+    rec = dict(o); rec.pop("spec", None); rec["spec"] = o["id"]
+    t0 = time.time()
+    roots = find_roots(funcs, spec["parent"])
+    if len(roots) != 1:
+        rec.update(verdict="inconclusive", reason="parent pattern resolves to %d functions" % len(roots), wall_s=0)
+        return rec
+    parent = funcs[roots[0]][0]
+    # closure identity -> body
+    by_ident = {}
+    for name, fl in funcs.items():
+        if name.startswith(roots[0] + "::{closure#"):
+            for f in fl:
+                m = re.match(r"_1: (?:&mut |&)?(\{closure@[^}]*\})", f.params or "")
+                if m:
+                    by_ident[m.group(1)] = f
+    sites = {}
+    for b in parent.blocks.values():
+        if b.kind != "call":
+            continue
+        m = re.match(r"tantivy_common::bounds::BoundsRange::<(i64|u64)>::(transform_inner|map_bound)::<u64, (.*)>$", b.call["callee"])
+        if not m:
+            continue
+        idents = re.findall(r"\{closure@[^}]*\}", m.group(3))
+        line = int(re.search(r"\.rs:(\d+):", idents[0]).group(1))
+        sites.setdefault(m.group(1), []).append((line, m.group(2), idents))
+    queries = 0; solver_s = 0.0; failed = []; detail = {"arms": []}; encoded = set(); summaries = set()
+    verdict = "discharged"; reason = None; witnessed = True
+    SIGNED = {"i64": True, "u64": False}
+    for from_ty, cols in spec["arms"].items():
+        arms = sorted(sites.get(from_ty, []))
+        kinds = [("transform_inner" if c != from_ty and c != "f64" else "map_bound") for c in cols]
+        if [a[1] for a in arms] != kinds:
+            verdict = "inconclusive"; reason = "bound transformations of %s literals changed shape: found %s, the obligation expects %s" % (from_ty, [a[1] for a in arms], kinds)
+            continue
+        for (line, kind, idents), col in zip(arms, cols):
+            if col == "f64":
+                continue    # float columns: outside this obligation (stated in the bounds)
+            ex = BVX.Exec(funcs)
+            q = BVX.BV("q", 64, SIGNED[from_ty])
+            try:
+                bodies = [by_ident[i] for i in idents]
+                paths = [ex.run(f, [None, q]) for f in bodies]
+            except (BVX.Unsupported, KeyError) as e:
+                verdict = "inconclusive"; reason = "bv execution of the %s-literal / %s-column arm: %r" % (from_ty, col, e)
+                continue
+            encoded |= set(ex.bodies); summaries |= set(ex.summaries_used)
+            head = ["(set-logic QF_BV)", "(declare-const q (_ BitVec 64))", "(declare-const c (_ BitVec 64))",
+                    "(define-fun m () (_ BitVec 64) %s)" % ("(bvxor c %s)" % BVX.lit(1 << 63, 64) if col == "i64" else "c"),
+                    "(define-fun qx () (_ BitVec 66) ((_ %s 2) q))" % ("sign_extend" if SIGNED[from_ty] else "zero_extend"),
+                    "(define-fun cx () (_ BitVec 66) ((_ %s 2) c))" % ("sign_extend" if SIGNED[col] else "zero_extend")]
+            ORIG = {("lower", "Included"): "(bvsge cx qx)", ("lower", "Excluded"): "(bvsgt cx qx)",
+                    ("upper", "Included"): "(bvsle cx qx)", ("upper", "Excluded"): "(bvslt cx qx)"}
+
+            def accept(side, bkind, y):
+                if bkind == "Unbounded":
+                    return "true"
+                op = {("lower", "Included"): "bvuge", ("lower", "Excluded"): "bvugt", ("upper", "Included"): "bvule", ("upper", "Excluded"): "bvult"}[(side, bkind)]
+                return "(%s m %s)" % (op, y)
+
+            checks = []
+            if kind == "map_bound":
+                g = paths[0]
+                for side in ("lower", "upper"):
+                    for bkind in ("Included", "Excluded"):
+                        acc = "(or %s)" % " ".join("(and %s %s)" % (BVX.conj(cs), accept(side, bkind, v["e"])) for cs, v in g)
+                        checks.append((side, bkind, acc))
+            else:
+                for side, ps in (("lower", paths[0]), ("upper", paths[1])):
+                    for bkind in ("Included", "Excluded"):
+                        alts = []
+                        for cs, v in ps:
+                            if v["k"] != "enum":
+                                raise BVX.Unsupported("closure does not return TransformBound")
+                            if v["variant"] == "Existing":
+                                a_ = accept(side, bkind, v["fields"][0]["e"])
+                            elif v["variant"] == "NewBound":
+                                nb = v["fields"][0]
+                                a_ = accept(side, nb["variant"], nb["fields"][0]["e"] if nb["fields"] else None)
+                            else:
+                                raise BVX.Unsupported("TransformBound variant %s" % v["variant"])
+                            alts.append("(and %s %s)" % (BVX.conj(cs), a_))
+                        checks.append((side, bkind, "(or %s)" % " ".join(alts)))
+            arm = {"literal": from_ty, "column": col, "kind": kind, "closures": idents, "paths": [len(p) for p in paths], "checks": []}
+            # vacuity: every path of every closure is feasible
+            for ps in paths:
+                for cs, _ in ps:
+                    r, _, dt = _smt("\n".join(head + ["(assert %s)" % BVX.conj(cs), "(check-sat)"]), "z3")
+                    queries += 1; solver_s += dt
+                    if r != "sat":
+                        witnessed = False
+            for side, bkind, acc in checks:
+                qtxt = "\n".join(head + ["(assert (xor %s %s))" % (ORIG[(side, bkind)], acc), "(check-sat)", "(get-value (q c))"])
+                r1, out1, dt1 = _smt(qtxt, "z3"); r2, out2, dt2 = _smt(qtxt, "cvc5")
+                queries += 2; solver_s += dt1 + dt2
+                cd = {"side": side, "bound": bkind, "z3": r1, "cvc5": r2}
+                if r1 != r2 or r1 not in ("sat", "unsat"):
+                    if verdict != "violated":
+                        verdict = "inconclusive"; reason = "solvers disagree or error on %s/%s %s %s: %s / %s" % (from_ty, col, side, bkind, r1, r2)
+                elif r1 == "sat":
+                    mv = dict(re.findall(r"\((q|c) #x([0-9a-f]+)\)", out1))
+                    qv = int(mv.get("q", "0"), 16); cv = int(mv.get("c", "0"), 16)
+                    sg = lambda v, ty: v - (1 << 64) if SIGNED[ty] and v >= (1 << 63) else v
+                    cd["counterexample"] = {"literal": sg(qv, from_ty), "column_value": sg(cv, col)}
+                    verdict = "violated"
+                    failed.append({"class": "mirbv", "file": roots[0], "line": line,
+                                   "desc": "%s literal on %s column, %s bound %s: literal %d, column value %d is accepted iff it should not be"
+                                           % (from_ty, col, side, bkind, sg(qv, from_ty), sg(cv, col)),
+                                   "probe": ["json_range", from_ty, col, side, bkind, str(sg(qv, from_ty)), str(sg(cv, col))]})
+                arm["checks"].append(cd)
+            detail["arms"].append(arm)
+    native = [tuple(f["probe"]) for f in failed[:3]]
+    rec.update(verdict=verdict, reason=reason, queries=queries, solver_s=round(solver_s, 3), failed=failed, native=native or None,
+               witnessed=witnessed and verdict == "discharged", detail=detail,
+               functions=sorted(encoded), assumes=list(o.get("assumes", [])) + ["summary: " + s_ for s_ in sorted(summaries)],
+               wall_s=round(time.time() - t0, 2), bounds=o.get("bounds") or "all 64-bit literals and column values; loop-free bodies, every path")
+    return rec
+
+
 def run_one(funcs, o, tier):
     if o["spec"].get("kind") == "scan":
         return run_scan(funcs, o, tier)
+    if o["spec"].get("kind") == "bounds":
+        return run_bounds(funcs, o, tier)
     spec = dict(o["spec"])
     if tier == "thorough":
         spec["unroll"] = spec.get("unroll_thorough", spec.get("unroll", 2) + 2)
